@@ -85,6 +85,61 @@ def short_repr(obj, limit=900):
     return s
 
 
+TRACE_CASES = int(os.environ.get("VERIF_TRACE_CASES", "25"))
+_CUT_PREFIX = os.path.join(REPO, "PyMatterSim") + os.sep
+
+
+class LineTracer:
+    """Collects the (file, line) pairs of the code under test executed while active (first few cases of a facet
+    only): evidence that the generator reaches the anchored regions."""
+
+    def __init__(self):
+        self.lines = set()
+        self._prev = None
+
+    def _local(self, frame, event, arg):
+        if event == "line":
+            self.lines.add((frame.f_code.co_filename, frame.f_lineno))
+        return self._local
+
+    def _global(self, frame, event, arg):
+        fn = frame.f_code.co_filename
+        if fn.startswith(_CUT_PREFIX):
+            self.lines.add((fn, frame.f_lineno))
+            return self._local
+        return None
+
+    def __enter__(self):
+        self._prev = sys.gettrace()
+        sys.settrace(self._global)
+        return self
+
+    def __exit__(self, *a):
+        sys.settrace(self._prev)
+        return False
+
+    def summary(self):
+        by = {}
+        for fn, ln in self.lines:
+            by.setdefault(os.path.relpath(fn, REPO), set()).add(ln)
+        return {k: sorted(v) for k, v in by.items()}
+
+
+def compress_lines(lines):
+    out, start, prev = [], None, None
+    for n in sorted(lines):
+        if start is None:
+            start = prev = n
+        elif n == prev + 1:
+            prev = n
+        else:
+            out.append(f"{start}-{prev}" if prev > start else str(start))
+            start = prev = n
+    if start is not None:
+        out.append(f"{start}-{prev}" if prev > start else str(start))
+    return ",".join(out)
+
+
 class Facet:
     def __init__(self, name, strategy=None, check=None, machine=None, quick=100, thorough=2000,
                  rule="", describe=None, steps=12, exhaustive=False, shards_thorough=None, shards_quick=1,
@@ -128,6 +183,8 @@ class Recorder:
         self.shrink_s = shrink_s
         self.best_hash = None
         self.extra = {}
+        self.tracer = LineTracer()
+        self.traced = 0
 
     def expired(self):
         return time.time() - self.t0 > self.budget_s
@@ -205,7 +262,12 @@ def run_fn_facet(facet: Facet, n: int, hseed: int, budget_s: float, shrink=True)
         if rec.shrink_exhausted() and case_hash(case) != rec.best_hash:
             return
         try:
-            info = guarded_check(facet.check, case)
+            if rec.failure is None and rec.traced < TRACE_CASES:
+                rec.traced += 1
+                with rec.tracer:
+                    info = guarded_check(facet.check, case)
+            else:
+                info = guarded_check(facet.check, case)
         except Violation as v:
             rec.note_failure(case, str(v), getattr(v, "bucket", "oracle"))
             raise
@@ -266,11 +328,19 @@ def run_machine_facet(facet: Facet, n: int, hseed: int, budget_s: float, shrink=
         def __init__(self):
             super().__init__()
             rec.current = self
+            self._tracing = False
+            if rec.failure is None and rec.traced < TRACE_CASES:
+                rec.traced += 1
+                self._tracing = True
+                rec.tracer.__enter__()
 
         def teardown(self):
             try:
                 super().teardown()
             finally:
+                if self._tracing:
+                    rec.tracer.__exit__()
+                    self._tracing = False
                 if not getattr(self, "_failed", False) and rec.failure is None:
                     rec.record(list(self.log), self.info, facet.describe)
 
@@ -304,8 +374,9 @@ def run_enum_facet(facet: Facet, tier: str):
     """Finite enumeration: facet.check(tier) yields (case, info) pairs or raises Violation with .case."""
     rec = Recorder(1e9, max_samples=3)
     try:
-        for case, info in facet.check(tier):
-            rec.record(case, info, facet.describe)
+        with rec.tracer:
+            for case, info in facet.check(tier):
+                rec.record(case, info, facet.describe)
     except Violation as v:
         rec.note_failure(getattr(v, "case", None), str(v), getattr(v, "bucket", "oracle"))
     except Exception as e:  # noqa: BLE001
